@@ -460,6 +460,13 @@ func main() {
 			} else if bytes.Contains(r.out, []byte("WARNING: DATA RACE")) || bytes.Contains(r.out, []byte("fatal error:")) || bytes.Contains(r.out, []byte("panic:")) {
 				p := saveCrash(*prop, filepath.Join(sdir, "journal.json"), r.out)
 				printViolation(p, crashSummary(r.out))
+			} else if _, err := os.Stat(failFile + ".stall"); err == nil {
+				p := saveFailure(*prop, failFile+".stall")
+				if pc.StallIsViolation {
+					printViolation(p, "stall: a call did not return / no progress")
+				} else {
+					inconclusive = fmt.Sprintf("shard %d: a wait expired (stall), details in %s", i, p)
+				}
 			} else {
 				fmt.Printf("%s\n", tail(r.out, 40))
 				inconclusive = fmt.Sprintf("shard %d failed without a failing program", i)
